@@ -29,6 +29,33 @@ theorem c06_tile (a : Asset) (cfg : MpdCfg) (wt : WrapTimes) (sets : List ASOut)
       simp [List.map_map, Function.comp_def]
   · simp [h0, h1, h2] at h
 
+/-- **presentationTimeOffset is the period start in the AdaptationSet's timescale**, for every period and every
+AdaptationSet (timeline or `$Number$`), whatever the number of periods per hour: a segment with media time `t` is
+presented at `Period@start + (t − PTO)/timescale = t/timescale`, its time in the single-period presentation. -/
+theorem c06_pto (a : Asset) (cfg : MpdCfg) (wt : WrapTimes) (sets : List ASOut) (pph : Nat) (ps : List PeriodOut)
+    (h : splitPeriod a cfg wt sets pph = .ok ps) :
+    ∀ p ∈ ps, p.sets.map (fun o => (o.pto, o.ts)) = sets.map (fun o => (some (p.startS * o.ts), o.ts)) := by
+  unfold splitPeriod at h
+  by_cases h0 : pph = 0
+  · simp [h0] at h
+  by_cases h1 : a.segDurMS = 0
+  · simp [h0, h1] at h
+  by_cases h2 : 3600 / pph * 1000 % a.segDurMS = 0
+  · by_cases h3 : 3600 / pph = 0
+    · simp [h0, h1, h2, h3] at h
+    · simp only [h0, h1, h2, h3, ↓reduceIte, ne_eq, not_true_eq_false] at h
+      injection h with h
+      subst h
+      intro p hp
+      rw [List.mem_map] at hp
+      obtain ⟨k, _, rfl⟩ := hp
+      simp only [List.map_map]
+      apply List.map_congr_left
+      intro o _
+      simp only [Function.comp]
+      cases o.tl <;> rfl
+  · simp [h0, h1, h2] at h
+
 /-- **Identity**: an entry kept in a period is an entry of the single-period timeline, unchanged, and its start
 lies in that period's interval. -/
 theorem c06_kept_is_original (entries : List (Nat × Nat)) (startNr pStart pEnd : Nat) (e : Nat × Nat)
